@@ -450,7 +450,12 @@ func c16RunLane(t *testing.T, dir string, lane string, scenarios []c16Scenario) 
 				doneSeen = true
 				continue
 			}
-			// every line of a scenario but its terminal one leaves the scenario pending
+			// every line of a scenario but its terminal one leaves the scenario pending; a line that a goroutine of
+			// the scenario still wrote behind its terminal line (a relay answering a poll while the child is leaving
+			// after a Hung / Stuck line) is dropped
+			if closed[c16Sc(l)] {
+				continue
+			}
 			if c16Terminal(l, histories[c16Sc(l)]) {
 				pending = nil
 				closed[c16Sc(l)] = true
